@@ -119,8 +119,8 @@ accepts it — and by `accept_sound` the result holds exactly the supplied value
 What `Spec.complete` leaves out (the named gap): values the code also accepts but that are not "correctly typed" in
 the sense above — a JSON number for a string-mode field whose literal `json.Number.Float64` refuses, string-encoded
 slices/maps, a range declared on a non-numeric field (the code rejects every supplied value of such a field) — and
-the premise `f64OK` (the literal parses as float64) is stated instead of derived from the integer syntax and a bit
-size ≤ 64 (`Kind.int b` allows any `b`). -/
+the premise `f64OK` (the literal parses as float64) is part of `numTyped`; it is implied for integer literals of a bit
+size ≤ 64 (`int_literal_typed`; `Kind.int b` allows any `b`), and is the float64 typing itself for floats. -/
 theorem accept_complete (c : Cfg) (hc : c.pinned = false) (ty : Ty) (j : J)
     (h : complete c ty j = true) :
     ∃ v, unmarshal c ty j = .ok v ∧ satisfies c ty j v = true := by
@@ -142,6 +142,13 @@ theorem accept_complete (c : Cfg) (hc : c.pinned = false) (ty : Ty) (j : J)
   | ptr t => simp at h
   | slice t => simp at h
   | map t => simp at h
+
+/-- the premise "the literal parses as float64" inside `Spec.numTyped` is implied for the integer kinds of Go (bit size ≤ 64):
+an integer literal of the field's bit size is a correctly typed JSON number -/
+theorem int_literal_typed (b : Nat) (hb : b ≤ 64) (lit : Str) :
+    ((∃ i, parseInt b lit = .ok i) → numTyped (.int b) lit = true)
+    ∧ ((∃ i, parseUint b lit = .ok i) → numTyped (.uint b) lit = true) :=
+  ⟨fun ⟨_, h⟩ => numTyped_int hb h, fun ⟨_, h⟩ => numTyped_uint hb h⟩
 
 /-- **range_exact** (used by the converse direction) — on the repaired code the range test accepts a finite number
 exactly when it lies inside the declared range, open and closed ends respected. -/
